@@ -1,8 +1,503 @@
-// Package c17: stub (property not built yet).
+// Package c17: the share handler (pkg/server/share.go, created through
+// blobserver.CreateHandler("share", …) and driven with httptest) and the handler guards of
+// pkg/serverinit, against the Lean model Pk.Share and against the property's own oracle
+// (ValidChain, computed in oracle.go without looking at the model or at the handler).
 package c17
 
-import "verifharness/hk"
+import (
+	"context"
+	"fmt"
+	"net/http"
+	"net/http/httptest"
+	"strconv"
+	"strings"
+	"sync"
+	"time"
 
-func NewExec() func(w []string) string { return func([]string) string { return "bad-op" } }
+	"go4.org/jsonconfig"
 
-func Run(r *hk.Run) { r.Note("not built yet") }
+	"perkeep.org/pkg/blob"
+	"perkeep.org/pkg/blobserver"
+	"perkeep.org/pkg/blobserver/memory"
+	"perkeep.org/pkg/index"
+	"perkeep.org/pkg/jsonsign"
+	"perkeep.org/pkg/schema"
+	"perkeep.org/pkg/server"
+	"perkeep.org/pkg/sorted"
+
+	"verifharness/hk"
+)
+
+var ctxbg = context.Background()
+
+// ---- one signer per process -------------------------------------------------------------------------
+
+var (
+	signerOnce sync.Once
+	signer     *schema.Signer
+	armoredPub string
+	pubRef     blob.Ref
+	signerErr  error
+	timeBase   = time.Now().UTC().Truncate(time.Second)
+)
+
+func getSigner() (*schema.Signer, error) {
+	signerOnce.Do(func() {
+		ent, err := jsonsign.NewEntity()
+		if err != nil {
+			signerErr = err
+			return
+		}
+		armoredPub, err = jsonsign.ArmoredPublicKey(ent)
+		if err != nil {
+			signerErr = err
+			return
+		}
+		pubRef = blob.RefFromString(armoredPub)
+		signer, signerErr = schema.NewSigner(pubRef, strings.NewReader(armoredPub), ent)
+	})
+	return signer, signerErr
+}
+
+// model time (the model's clock stands at 1000) -> wall clock
+func realTime(t int) time.Time { return timeBase.Add(time.Duration(t-1000) * time.Hour) }
+
+// ---- the loader the share handler's constructor sees -------------------------------------------------
+
+type loader struct {
+	sto blobserver.Storage
+	idx *index.Index
+}
+
+func (l *loader) FindHandlerByType(string) (string, any, error) {
+	return "", nil, blobserver.ErrHandlerTypeNotFound
+}
+func (l *loader) AllHandlers() (map[string]string, map[string]any) { return nil, nil }
+func (l *loader) MyPrefix() string                                 { return "/share/" }
+func (l *loader) BaseURL() string                                  { return "http://unused" }
+func (l *loader) GetHandlerType(p string) string {
+	switch p {
+	case "/bs/":
+		return "storage-memory"
+	case "/index/":
+		return "storage-index"
+	}
+	return ""
+}
+func (l *loader) GetHandler(p string) (any, error) {
+	if p == "/index/" {
+		return l.idx, nil
+	}
+	if p == "/bs/" {
+		return l.sto, nil
+	}
+	return nil, fmt.Errorf("no handler %q", p)
+}
+func (l *loader) GetStorage(p string) (blobserver.Storage, error) {
+	if p == "/bs/" {
+		return l.sto, nil
+	}
+	return nil, fmt.Errorf("no storage %q", p)
+}
+
+// ---- the world of one case ----------------------------------------------------------------------------
+
+type world struct {
+	sto     *memory.Storage
+	kv      sorted.KeyValue
+	idx     *index.Index
+	handler http.Handler
+	refs    map[int]blob.Ref // id -> ref of a stored blob
+	data    map[int]string   // id -> bytes of a stored blob
+	kind    map[int]string
+	phantom map[int]bool // ids that were referenced before being stored: can never be stored
+	srv     *srvWorld
+	keepSrv bool // keep the in-process server between ops (the generator closes it itself)
+	lastRec *httptest.ResponseRecorder
+	err     string
+}
+
+func newWorld() *world {
+	server.VerifDisableShareDelay()
+	w := &world{refs: map[int]blob.Ref{}, data: map[int]string{}, kind: map[int]string{}, phantom: map[int]bool{}}
+	if _, err := getSigner(); err != nil {
+		w.err = "signer: " + err.Error()
+		return w
+	}
+	w.sto = &memory.Storage{}
+	w.kv = sorted.NewMemoryKeyValue()
+	if err := w.openIndex(); err != nil {
+		w.err = err.Error()
+	}
+	return w
+}
+
+// openIndex (re)opens the index over the same key/value store and builds the share handler through
+// its registered constructor
+func (w *world) openIndex() error {
+	idx, err := index.New(w.kv)
+	if err != nil {
+		return err
+	}
+	idx.InitBlobSource(w.sto)
+	w.idx = idx
+	h, err := blobserver.CreateHandler("share", &loader{w.sto, idx}, jsonconfig.Obj{"blobRoot": "/bs/", "index": "/index/"})
+	if err != nil {
+		return err
+	}
+	w.handler = h
+	return nil
+}
+
+// ref of an id: a stored blob's ref, else the ref of a blob that is never stored
+func (w *world) ref(id int) blob.Ref {
+	if r, ok := w.refs[id]; ok {
+		return r
+	}
+	w.phantom[id] = true
+	return blob.RefFromString(fmt.Sprintf("c17 phantom blob %d", id))
+}
+
+func (w *world) refText(ids []int) string {
+	s := make([]string, len(ids))
+	for i, id := range ids {
+		s[i] = w.ref(id).String()
+	}
+	return strings.Join(s, " ")
+}
+
+func (w *world) store(id int, kind, data string) string {
+	if _, dup := w.refs[id]; dup || w.phantom[id] {
+		// a ref is the hash of the content: an id that was already referenced cannot get content now
+		return "bad-op"
+	}
+	br := blob.RefFromString(data)
+	if _, err := blobserver.Receive(ctxbg, w.sto, br, strings.NewReader(data)); err != nil {
+		return "err"
+	}
+	// the index sees every blob, as behind a real server; only claims matter to the share handler
+	w.idx.ReceiveBlob(ctxbg, br, strings.NewReader(data))
+	w.refs[id], w.data[id], w.kind[id] = br, data, kind
+	return "ok"
+}
+
+func jsonStr(s string) string { return strconv.Quote(s) }
+
+func parseIDs(s string) ([]int, bool) {
+	if s == "-" {
+		return nil, true
+	}
+	var out []int
+	for _, p := range strings.Split(s, ",") {
+		n, ok := parseNat(p)
+		if !ok {
+			return nil, false
+		}
+		out = append(out, n)
+	}
+	return out, true
+}
+
+func parseNat(s string) (int, bool) {
+	if s == "" || len(s) > 9 {
+		return 0, false
+	}
+	for _, c := range s {
+		if c < '0' || c > '9' {
+			return 0, false
+		}
+	}
+	n, _ := strconv.Atoi(s)
+	return n, true
+}
+
+func parseOpt(s string) (int, bool) { // -1 = absent
+	if s == "-" {
+		return -1, true
+	}
+	return parseNat(s)
+}
+
+// putBlob builds the real blob described by `blob <id> <extra> <kind> …` and stores it
+func (w *world) putBlob(ws []string) string {
+	if len(ws) < 4 {
+		return "bad-op"
+	}
+	id, ok1 := parseNat(ws[1])
+	extra, ok2 := parseIDs(ws[2])
+	if !ok1 || !ok2 {
+		return "bad-op"
+	}
+	kind, args := ws[3], ws[4:]
+	// refs outside the link fields go to the "fileName" field
+	name := fmt.Sprintf("b%d", id)
+	if len(extra) > 0 {
+		name += " see " + w.refText(extra)
+	}
+	sign := func(bb *schema.Builder) (string, bool) {
+		js, err := bb.SignAt(ctxbg, signer, timeBase.Add(time.Duration(id)*time.Second))
+		return js, err == nil
+	}
+	switch kind {
+	case "share":
+		if len(args) != 3 || (args[1] != "0" && args[1] != "1") {
+			return "bad-op"
+		}
+		tgt, ok1 := parseOpt(args[0])
+		exp, ok2 := parseOpt(args[2])
+		if !ok1 || !ok2 {
+			return "bad-op"
+		}
+		bb := schema.NewShareRef(schema.ShareHaveRef, args[1] == "1")
+		if tgt >= 0 {
+			bb.SetShareTarget(w.ref(tgt))
+		} else {
+			bb.SetShareSearch(map[string]any{"expression": "tag:shared"})
+		}
+		if exp >= 0 {
+			bb.SetShareExpiration(realTime(exp))
+		}
+		bb.SetRawStringField("fileName", name)
+		js, ok := sign(bb)
+		if !ok {
+			return "err"
+		}
+		return w.store(id, kind, js)
+	case "file", "bytes":
+		if len(args) != 1 {
+			return "bad-op"
+		}
+		parts, ok := parseIDs(args[0])
+		if !ok {
+			return "bad-op"
+		}
+		var ps []string
+		for _, p := range parts {
+			field := "blobRef"
+			if w.kind[p] == "bytes" {
+				field = "bytesRef"
+			}
+			size := len(w.data[p])
+			if w.kind[p] == "bytes" || size == 0 {
+				size = 7
+			}
+			ps = append(ps, fmt.Sprintf(`{"%s": "%s", "size": %d}`, field, w.ref(p), size))
+		}
+		js := fmt.Sprintf(`{"camliVersion": 1, "camliType": %s, "fileName": %s, "parts": [%s]}`,
+			jsonStr(kind), jsonStr(name), strings.Join(ps, ", "))
+		return w.store(id, kind, js)
+	case "dir":
+		if len(args) != 1 {
+			return "bad-op"
+		}
+		e, ok := parseNat(args[0])
+		if !ok {
+			return "bad-op"
+		}
+		js := fmt.Sprintf(`{"camliVersion": 1, "camliType": "directory", "fileName": %s, "entries": "%s"}`, jsonStr(name), w.ref(e))
+		return w.store(id, kind, js)
+	case "set":
+		if len(args) != 2 {
+			return "bad-op"
+		}
+		ms, ok1 := parseIDs(args[0])
+		subs, ok2 := parseIDs(args[1])
+		if !ok1 || !ok2 {
+			return "bad-op"
+		}
+		q := func(ids []int) string {
+			s := make([]string, len(ids))
+			for i, id := range ids {
+				s[i] = jsonStr(w.ref(id).String())
+			}
+			return "[" + strings.Join(s, ", ") + "]"
+		}
+		js := `{"camliVersion": 1, "camliType": "static-set", "fileName": ` + jsonStr(name)
+		if len(ms) > 0 || len(subs) == 0 {
+			js += `, "members": ` + q(ms)
+		}
+		if len(subs) > 0 {
+			js += `, "mergeSets": ` + q(subs)
+		}
+		js += "}"
+		return w.store(id, kind, js)
+	case "other":
+		if len(args) != 1 {
+			return "bad-op"
+		}
+		ms, ok := parseIDs(args[0])
+		if !ok {
+			return "bad-op"
+		}
+		if len(ms) == 0 {
+			js := fmt.Sprintf(`{"camliVersion": 1, "camliType": "permanode", "random": "r%d", "fileName": %s}`, id, jsonStr(name))
+			return w.store(id, kind, js)
+		}
+		if len(ms) > 1 {
+			name += " also " + w.refText(ms[1:])
+		}
+		switch id % 4 {
+		case 0: // a claim whose value is the ref
+			bb := schema.NewSetAttributeClaim(w.ref(ms[0]), "camliContent", w.ref(ms[0]).String())
+			bb.SetRawStringField("fileName", name)
+			js, ok := sign(bb)
+			if !ok {
+				return "err"
+			}
+			return w.store(id, kind, js)
+		case 1: // a signed share claim of an auth type that AsShare does not accept
+			bb := schema.NewShareRef("notharef", true).SetShareTarget(w.ref(ms[0]))
+			bb.SetRawStringField("fileName", name)
+			js, ok := sign(bb)
+			if !ok {
+				return "err"
+			}
+			return w.store(id, kind, js)
+		case 2: // a symlink
+			js := fmt.Sprintf(`{"camliVersion": 1, "camliType": "symlink", "fileName": %s, "symlinkTarget": %s}`,
+				jsonStr(name), jsonStr("../"+w.ref(ms[0]).String()))
+			return w.store(id, kind, js)
+		default: // a transitive haveref share claim that nobody signed
+			js := fmt.Sprintf(`{"camliVersion": 1, "camliType": "claim", "claimType": "share", "authType": "haveref", "transitive": true, "claimDate": "2013-01-01T00:00:00Z", "target": "%s", "fileName": %s}`,
+				w.ref(ms[0]), jsonStr(name))
+			return w.store(id, kind, js)
+		}
+	case "raw":
+		if len(args) != 1 {
+			return "bad-op"
+		}
+		ms, ok := parseIDs(args[0])
+		if !ok {
+			return "bad-op"
+		}
+		txt := fmt.Sprintf("raw content of blob %d", id)
+		if id == 0 && len(ms) == 0 && len(extra) == 0 {
+			txt = armoredPub // the signer's public key, so that the index can verify claims
+		} else if len(ms)+len(extra) > 0 {
+			txt += "; a payload containing the refs: " + w.refText(append(ms, extra...))
+		}
+		return w.store(id, kind, txt)
+	}
+	return "bad-op"
+}
+
+func (w *world) del(ws []string) string {
+	id, ok1 := parseNat(ws[1])
+	t, ok2 := parseNat(ws[2])
+	if !ok1 || !ok2 {
+		return "bad-op"
+	}
+	js, err := schema.NewDeleteClaim(w.ref(t)).SignAt(ctxbg, signer, timeBase.Add(time.Duration(id)*time.Second))
+	if err != nil {
+		return "err"
+	}
+	return w.store(id, "other", js)
+}
+
+var methods = []string{"GET", "HEAD", "POST", "PUT", "DELETE", "PATCH", "OPTIONS", "CONNECT", "TRACE"}
+
+func isMethod(m string) bool {
+	for _, x := range methods {
+		if x == m {
+			return true
+		}
+	}
+	return false
+}
+
+type getResult struct {
+	code   string
+	status int
+	body   string
+}
+
+func (w *world) reqRef(s string) (string, bool) {
+	if s == "x" {
+		return "not-a-blobref", true
+	}
+	id, ok := parseNat(s)
+	if !ok {
+		return "", false
+	}
+	return w.ref(id).String(), true
+}
+
+// get performs one request on the real share handler
+func (w *world) get(method string, assemble bool, path, via string) (getResult, bool) {
+	p, ok := w.reqRef(path)
+	if !ok {
+		return getResult{}, false
+	}
+	url := "http://unused/" + p
+	sep := "?"
+	if via != "-" {
+		var vs []string
+		for _, v := range strings.Split(via, ",") {
+			r, ok := w.reqRef(v)
+			if !ok {
+				return getResult{}, false
+			}
+			vs = append(vs, r)
+		}
+		url += "?via=" + strings.Join(vs, ",")
+		sep = "&"
+	}
+	if assemble {
+		url += sep + "assemble=1"
+	}
+	req, err := http.NewRequest(method, url, nil)
+	if err != nil {
+		return getResult{}, false
+	}
+	req.RemoteAddr = "203.0.113.7:4711"
+	rec := httptest.NewRecorder()
+	code, ok := server.VerifShareServe(w.handler, rec, req)
+	if !ok {
+		return getResult{code: "not-a-share-handler"}, true
+	}
+	return getResult{code, rec.Code, rec.Body.String()}, true
+}
+
+func (w *world) exec(ws []string) string {
+	if len(ws) == 0 {
+		return "bad-op"
+	}
+	if w.err != "" {
+		return "err " + w.err
+	}
+	switch ws[0] {
+	case "blob":
+		return w.putBlob(ws)
+	case "del":
+		if len(ws) != 3 {
+			return "bad-op"
+		}
+		return w.del(ws)
+	case "get":
+		if len(ws) != 5 || !isMethod(ws[1]) || (ws[2] != "0" && ws[2] != "1") {
+			return "bad-op"
+		}
+		res, ok := w.get(ws[1], ws[2] == "1", ws[3], ws[4])
+		if !ok {
+			return "bad-op"
+		}
+		if ws[2] == "1" && res.code == "noError" {
+			return res.code + " *"
+		}
+		return fmt.Sprintf("%s %d", res.code, res.status)
+	case "srv", "guard", "access", "fixed":
+		return w.execSrv(ws)
+	}
+	return "bad-op"
+}
+
+// NewExec returns the interpreter of the c17 line protocol on the real code.
+func NewExec() func(w []string) string {
+	var wd *world
+	return func(ws []string) string {
+		if wd == nil {
+			wd = newWorld()
+		}
+		return hk.Guard(func() string { return wd.exec(ws) })
+	}
+}
